@@ -321,6 +321,13 @@ errordict /typecheck known 1 (a) add
 		g, err := type1.Read(bytes.NewReader(so))
 		fmt.Fprintf(&sb, "\nsubr font: %s %s", dump.Err(err), dump.Font(g))
 	}
+	// fonts the library's writer never produces: no /FontName, hand-written,
+	// a FontName that is a string
+	for i, file := range [][]byte{gen.AliasFont(sim.ReplayTape([]uint32{2, 1})), gen.TinyFont(sim.ReplayTape([]uint32{1, 3, 1, 1})),
+		bytes.Replace(gen.TinyFont(sim.ReplayTape(nil)), []byte("/FontName /Tiny def"), []byte("/FontName (Tiny) def"), 1)} {
+		g, err := type1.Read(bytes.NewReader(file))
+		fmt.Fprintf(&sb, "\nforeign font %d: %s %s", i, dump.Err(err), dump.Font(g))
+	}
 	// default options, the PDF form, the queries, and the exported tables
 	{
 		var buf bytes.Buffer
